@@ -150,15 +150,16 @@ class FortLineLength():
                     if len(line) < self._line_length:
                         fortran_out += line + "\n"
                         continue
-                    break_point = find_break_point(
-                        line, self._line_length-len(c_end), key_list)
+                    break_point = self._break_point(
+                        line, self._line_length-len(c_end), key_list,
+                        line_type)
 
                 fortran_out += line[:break_point] + c_end + "\n"
                 line = line[break_point:]
                 while len(line) + len(c_start) > self._line_length:
-                    break_point = find_break_point(
+                    break_point = self._break_point(
                         line, self._line_length-len(c_end)-len(c_start),
-                        key_list)
+                        key_list, line_type)
                     fortran_out += c_start + line[:break_point] + c_end + "\n"
                     line = line[break_point:]
                 if line:
@@ -168,6 +169,34 @@ class FortLineLength():
 
         # We add an extra newline so remove it when we return
         return fortran_out[:-1]
+
+    @staticmethod
+    def _break_point(line, max_index, key_list, line_type):
+        '''Finds the position at which to break a line: the most
+        appropriate one according to find_break_point() if there is
+        one. Otherwise, a statement or a comment is broken at the last
+        possible position (free-form Fortran allows a statement to be
+        continued at any position, even within a token, when the
+        continuation line starts with "&"). The tokens of a directive
+        cannot be split.
+
+        :param str line: the text to find the line break point for.
+        :param int max_index: the maximum index in line for the break point.
+        :param List[str] key_list: list of potential symbols to break at.
+        :param str line_type: the type of the line.
+
+        :returns: index to break the line at.
+        :rtype: int
+
+        :raises InternalError: if no suitable break point is found in \
+                               a directive.
+        '''
+        try:
+            return find_break_point(line, max_index, key_list)
+        except InternalError:
+            if line_type in ("openmp_directive", "openacc_directive"):
+                raise
+            return max_index
 
     def _get_line_type(self, line):
         ''' Classes lines into diffrent types. This is required as
